@@ -160,7 +160,11 @@ impl<'a> From<&'a Log> for CompressedLog<'a> {
 
 /// Creates a writer for `path`.
 fn create_writer(path: impl AsRef<Path>) -> ExecResult<impl std::io::Write> {
+    #[cfg(mahf_verif)]
+    crate::verif::io::before_create(path.as_ref()).wrap_err("failed to create log file")?;
     let file = File::create(path.as_ref()).wrap_err("failed to create log file")?;
+    #[cfg(mahf_verif)]
+    let file = crate::verif::io::wrap(path.as_ref(), file);
     Ok(BufWriter::new(file))
 }
 
